@@ -41,6 +41,13 @@ def cases(tier, seed):
                 out.append({"kind": "sorted_indexer", "N": Ns, "G": 2 if tier == "quick" else 3, "bits": list(bits), "rep": rep, "key_map": km,
                             "name": f"group-sorted indexer/{rep}/key_map={km}/null pattern " + "".join("k" if b else "-" for b in bits),
                             "witness": list(bits) == [True, False, True, True][:Ns] + [True] * (Ns - 4)})
+    # (f) the chunk-wise factorization of the constructor (sorted-prefix fast path, per-chunk dictionaries, pointer tables): keys enumerated
+    Nk = 4 if tier == "quick" else 6
+    for sort in (True, False):
+        for first in (1.0, 2.0, 3.0, None):
+            out.append({"kind": "chunked_constructor", "N": Nk, "alphabet": [1.0, 2.0, 3.0, float("nan")], "first": float("nan") if first is None else first,
+                        "sort": sort, "max_chunks": 2, "funcs": ["sum", "first"],
+                        "name": f"GroupBy(chunked keys).sum/first == per-key definition/N={Nk} over {{1,2,3,null}} starting with {first}/every 2-chunk layout/sort={sort}"})
     # (e) range index
     for step in (-3, -2, -1, 1, 2, 3):
         out.append({"kind": "range_index", "N": N, "step": step, "name": f"factorize_range_index/step={step}/N={N}"})
@@ -58,6 +65,9 @@ def run_case(E, case):
             return run_sorted_indexer(E, case)
         if k == "range_index":
             return run_range_index(E, case)
+        if k == "chunked_constructor":
+            from . import constructor
+            return constructor.run_case(E, case, PROP)
     except (Unsupported, OutsideModel):
         raise
     raise Unsupported(k)
@@ -402,17 +412,24 @@ def replay(case, conc, cand=None):
         return replay_sorted_indexer(case, conc)
     if k == "range_index":
         return replay_range_index(case, conc)
+    if k == "chunked_constructor":
+        from . import constructor
+        return constructor.replay(case, conc, cand)
     raise Unsupported(k)
 
 
 META = {
     "bounds": {"quick": {"N": 4, "keys": "2 keys with label counts (2,2),(1,3),(3,2),(2,1)", "monotonic chunks": "<= 2", "sorted indexer": "N=4, G=2"},
                "thorough": {"N": 6, "keys": "2-3 keys, label counts in 1..3", "monotonic chunks": "<= 3", "sorted indexer": "N=5, G=3"}},
-    "enumerated": ["number of keys and label counts per key (the mixed-radix weights are then concrete)", "chunk layouts of the monotonic fast path",
+    "enumerated": ["for the chunk-wise constructor path: every key sequence of the bound over {1,2,3,null} and every 2-chunk layout, sort on/off (values symbolic)",
+                   "number of keys and label counts per key (the mixed-radix weights are then concrete)", "chunk layouts of the monotonic fast path",
                    "null positions for the counting sort (its output length is the number of non-null rows)", "every label order (key_map) for the lazily sorted indexer",
                    "range step"],
     "symbolic": ["per-key codes incl. the null code in any key position", "key values and null flags (monotonic path)", "group assignment of the non-null rows", "range start"],
-    "assumptions": ["the 1-D factorizers of pandas/pyarrow (pd.factorize, dictionary_encode, categorical codes, factorize_array) and pandas "
+    "assumptions": ["constructor path: the real _factorize_group_key_in_chunks and monotonic_factorization run on concrete chunked keys with contract models of "
+                    "pandas' factorize_array (first-appearance codes, NaN -> -1) and Index.drop_duplicates / sort_values / get_indexer; the resulting state then "
+                    "reduces SYMBOLIC values, and the solver decides that every label's sum/first/count is that of exactly the rows carrying the key",
+                    "the 1-D factorizers of pandas/pyarrow (pd.factorize, dictionary_encode, categorical codes, factorize_array) and pandas "
                     "drop_duplicates/get_indexer/sort_values inside _factorize_group_key_in_chunks are assumed correct by contract (factorize_1d is replaced by "
                     "a stub returning symbolic codes and a label count)", "np.empty contents are arbitrary (fresh symbolic) values",
                     "how long the monotonic prefix is, is an optimisation and not constrained (only cutoff in [0, N])",
